@@ -143,6 +143,7 @@ static int64_t keyval(int kind, int kt, int64_t idx) {
 static int64_t seqval(int et, int64_t x) {
   if (et == ET_INT) { int64_t m = ((x % 200) + 200) % 200; return m < NBND ? BND[m] : (m % 17) - 5; }
   if (et == ET_TOK || et == ET_CKEY) return ((x % 40) + 40) % 40;
+  if (et == ET_FLT) { int64_t m = ((x % 50) + 50) % 50; return m == 0 ? 0 : m == 1 ? 7777 : normv(et, x); }
   return normv(et, x);
 }
 
@@ -591,6 +592,8 @@ static int seq_readback(Cont* c, int64_t* out, int cap) {
 }
 
 static int64_t elemv(Cont* c, int i) { return c->kind == K_TUPLE ? pool_val(c->k[i]) : c->k[i]; }
+/* an equal value with another representation, where the type has one (signed zero) */
+static int64_t altv(int et, int64_t v) { if (et == ET_FLT) { if (v == 0) return 7777; if (v == 7777) return 0; } return v; }
 static int elem_et(Cont* c) { return c->kind == K_TUPLE ? ET_INT : c->kt; }
 
 /* string operand by mode */
@@ -1020,10 +1023,10 @@ static void do_twin(const Op* o) {
     int other = (var_ & 1);
     int kind = other ? (c->kind == K_ARRAY ? K_LIST : K_ARRAY) : c->kind;
     t = new_cont(kind, c->kt, c->vt, 0);
-    if (var_ & 2) { for (int i = c->n - 1; i >= 0; i--) push_at(t, MKVAL(c->kt, c->k[i]), $I(0)); }
+    if (var_ & 2) { for (int i = c->n - 1; i >= 0; i--) push_at(t, MKVAL(c->kt, altv(c->kt, c->k[i])), $I(0)); }
     else {
       if (kind == K_ARRAY) resize(t, (size_t)c->n + 7);
-      for (int i = 0; i < c->n; i++) push(t, MKVAL(c->kt, c->k[i]));
+      for (int i = 0; i < c->n; i++) push(t, MKVAL(c->kt, altv(c->kt, c->k[i])));
       push(t, MKVAL(c->kt, seqval(c->kt, 5))); pop(t);
     }
     how = other ? "twin-other-kind" : "twin-same-kind";
@@ -1205,7 +1208,9 @@ static void do_bad(const Op* o) {
                 var el = get(obj, $I(x % n < 0 ? 0 : x % n));
                 what = (x & 1) ? "del_raw-embedded" : "del-embedded"; acc = X_RESOURCE | X_VALUE;
                 try { if (x & 1) del_raw(el); else del(el); } catch (e) { ex = e; } break; }
-      case 10: what = "index-not-int"; acc = X_CLASS | X_VALUE | X_TYPE; try { get(obj, $S("zero")); } catch (e) { ex = e; } break;
+      case 10: if (c->kind != K_TUPLE && (c->kt == ET_INT || c->kt == ET_FLT) && (x & 1)) {
+                 what = "push-wrong-type"; acc = X_CLASS | X_VALUE | X_TYPE; try { push(obj, $S("not a number")); } catch (e) { ex = e; } break; }
+               what = "index-not-int"; acc = X_CLASS | X_VALUE | X_TYPE; try { get(obj, $S("zero")); } catch (e) { ex = e; } break;
       default: what = "unimplemented-class"; acc = X_CLASS; try { sopen(obj, $S("x"), $S("r")); } catch (e) { ex = e; } break;
     }
   } else if (is_map(c->kind)) {
@@ -1510,7 +1515,7 @@ static void nontrivial_eval(void) {
                "bad.push_at-out-of-range", "bad.rem-absent", "bad.get-null-key", "bad.resize-tuple-grow", "bad.get-absent", "bad.set-wrong-key-type",
                "bad.set-wrong-value-type", "bad.get-wrong-key-type", "bad.mem-wrong-key-type", "bad.rem-wrong-key-type", "bad.resize-below-len",
                "bad.resize-tree-nonzero", "bad.set-null-value", "bad.unimplemented-class", "bad.index-not-int", "bad.concat-null", "bad.concat-no-c_str",
-               "bad.assign-null", "bad.print-too-few-args", NULL };
+               "bad.assign-null", "bad.print-too-few-args", "bad.push-wrong-type", NULL };
                for (int i = 0; ks[i]; i++) kinds += stat_get(ks[i]) > 0;
                nt = kinds >= 5 && stat_get("seq.maxlen") + stat_get("table.max_slots") >= 2; break; }
     case 16: nt = stat_get("str.rem_middle") > 0 && stat_get("str.grow_after_shrink") > 0; break;
